@@ -131,8 +131,19 @@ def run(tier):
                     w = replay(c2)
                     if w: return c2, w
         return None, None
+    OFFSET_PANEL = [b"AAA5:00:59", b"AAA-5:00:59", b"AAA+5:59:01", b"AAA0:00:01", b"AAA24", b"AAA5BBB4:30:30,J1,J2", b"AAA5BBB,J1/-1:00:30,J2/167:59:59",
+                    b"AAA5BBB,J1/-167:59:59,J2/+1:02:03", b"<-03>3:04:05<-02>,M3.5.0/-2:00:01,M10.5.0/-1:00:01"]
     for r in results:
         for fobj in r["failed"]:
+            if "bytes" not in fobj["model"]:
+                # a counterexample of the SMT job on ParseOffset's arithmetic: find a concrete string among offsets/times with seconds
+                hit = None
+                for s in OFFSET_PANEL:
+                    w = replay({"bytes": list(s) + [0]})
+                    if w: hit = (s, w); break
+                if hit: rep.violation("str:" + hit[0].decode("latin1"), hit[1] + "  [%s: %s]" % (r["name"], fobj["desc"]), {"bytes": list(hit[0]) + [0]})
+                else: rep.spurious.append({"job": r["name"], "obligation": fobj["desc"], "model": fobj["model"]})
+                continue
             H = fobj["model"].get("H"); cands = [fobj["model"]["bytes"]]
             if H in (3, 4, 5):
                 # the model is over uninterpreted lower levels: get a concrete string from the same unit with every level real
